@@ -158,7 +158,11 @@ func init() {
 	})
 	B("Set", func(e *Engine, fr *frame, a []Value) Value {
 		v := bigGet(a[1])
-		return bigSet(a[0], &bigVal{v.w, v.t, v.neg})
+		nv := &bigVal{v.w, v.t, v.neg}
+		if m := bigMetaTab[v]; m != nil {
+			bigMetaTab[nv] = &bigMeta{m.nonzero, m.red, m.sumRed}
+		}
+		return bigSet(a[0], nv)
 	})
 	B("SetInt64", func(e *Engine, fr *frame, a []Value) Value {
 		x := a[1].(Term)
@@ -175,20 +179,32 @@ func init() {
 	})
 	B("Cmp", func(e *Engine, fr *frame, a []Value) Value {
 		x, y := bigGet(a[0]), bigGet(a[1])
-		if x.neg || y.neg {
-			xc, ok1 := x.concrete()
-			yc, ok2 := y.concrete()
-			if ok1 && ok2 {
-				return BV(64, int64(xc.Cmp(yc)))
-			}
-			unsupported("big.Cmp with negative symbolic operand")
-		}
 		xt, yt := unify(x.t, y.t)
-		return Ite(Ult(xt, yt), BV(64, -1), Ite(Eq(xt, yt), BV(64, 0), BV(64, 1)))
+		// engine-side knowledge: a value known to be non-zero compared with the constant 0
+		if y.t.IsConst() && y.t.C.Sign() == 0 && bigMetaTab[x] != nil && bigMetaTab[x].nonzero {
+			if x.neg {
+				return BV(64, -1)
+			}
+			return BV(64, 1)
+		}
+		mag := Ite(Ult(xt, yt), BV(64, -1), Ite(Eq(xt, yt), BV(64, 0), BV(64, 1)))
+		switch {
+		case !x.neg && !y.neg:
+			return mag
+		case x.neg && y.neg:
+			return Neg(mag)
+		case x.neg: // x <= 0 <= y
+			return Ite(And(Eq(xt, BV(xt.W, 0)), Eq(yt, BV(yt.W, 0))), BV(64, 0), BV(64, -1))
+		default:
+			return Ite(And(Eq(xt, BV(xt.W, 0)), Eq(yt, BV(yt.W, 0))), BV(64, 0), BV(64, 1))
+		}
 	})
 	B("Sign", func(e *Engine, fr *frame, a []Value) Value {
 		x := bigGet(a[0])
 		z := Eq(x.t, BV(x.w, 0))
+		if bigMetaTab[x] != nil && bigMetaTab[x].nonzero {
+			z = Bool(false)
+		}
 		if x.neg {
 			return Ite(z, BV(64, 0), BV(64, -1))
 		}
@@ -248,3 +264,221 @@ func init() {
 }
 
 var _ = fmt.Sprint
+
+// ---- arithmetic.  Exact on bit-vectors where that is linear (Add, Sub, comparison, Mod of a sum of two
+// reduced values); Exp / Mul of two symbolic values / general Mod are uninterpreted functions with range facts.
+
+type bigMeta struct {
+	nonzero bool
+	red    string // value is known to be < the modulus with this printed form
+	sumRed string // value is the sum of two values reduced modulo this modulus
+}
+
+var bigMetaTab = map[*bigVal]*bigMeta{}
+
+func metaOf(v *bigVal) *bigMeta {
+	m := bigMetaTab[v]
+	if m == nil {
+		m = &bigMeta{}
+		bigMetaTab[v] = m
+	}
+	return m
+}
+
+func padTo(t Term, w int) Term { return ZExt(t, w) }
+
+func bigW(vs ...*bigVal) int {
+	w := 8
+	for _, v := range vs {
+		if v.w > w {
+			w = v.w
+		}
+	}
+	return w
+}
+
+func init() {
+	B := func(name string, h intrinsic) { intrinsics["(*math/big.Int)."+name] = h }
+	concrete3 := func(vs ...*bigVal) ([]*big.Int, bool) {
+		out := make([]*big.Int, len(vs))
+		for i, v := range vs {
+			c, ok := v.concrete()
+			if !ok {
+				return nil, false
+			}
+			out[i] = c
+		}
+		return out, true
+	}
+	B("Exp", func(e *Engine, fr *frame, a []Value) Value {
+		x, y := bigGet(a[1]), bigGet(a[2])
+		mp, _ := a[3].(*Value)
+		if mp == nil {
+			unsupported("big.Exp without modulus")
+		}
+		m := bigGet(mp)
+		if cs, ok := concrete3(x, y, m); ok {
+			return bigSet(a[0], bigConst(new(big.Int).Exp(cs[0], cs[1], cs[2])))
+		}
+		if x.neg || y.neg || m.neg {
+			unsupported("big.Exp with negative symbolic operand")
+		}
+		w := bigW(x, y, m)
+		name := fmt.Sprintf("modexp_%d", w)
+		uf(name, []int{w, w, w}, w)
+		r := App(name, w, padTo(x.t, w), padTo(y.t, w), padTo(m.t, w))
+		mt := padTo(m.t, w)
+		e.solver.Assert(Or(Eq(mt, BV(w, 0)), Ult(r, mt)))
+		res := &bigVal{w, r, false}
+		if m.w < w { // r < m < 2^m.w: the high bits are zero, keep the representation narrow
+			res = &bigVal{m.w, Extract(m.w-1, 0, r), false}
+		}
+		metaOf(res).red = m.t.S()
+		return bigSet(a[0], res)
+	})
+	B("Mul", func(e *Engine, fr *frame, a []Value) Value {
+		x, y := bigGet(a[1]), bigGet(a[2])
+		if cs, ok := concrete3(x, y); ok {
+			return bigSet(a[0], bigConst(new(big.Int).Mul(cs[0], cs[1])))
+		}
+		neg := x.neg != y.neg
+		w := x.w + y.w
+		small := func(v *bigVal) bool { return v.t.IsConst() && v.t.C.BitLen() <= 32 }
+		if small(x) || small(y) {
+			return bigSet(a[0], &bigVal{w, Mul(padTo(x.t, w), padTo(y.t, w)), neg})
+		}
+		p, q := padTo(x.t, w), padTo(y.t, w)
+		if p.S() > q.S() { // commutative: normalise the argument order
+			p, q = q, p
+		}
+		name := fmt.Sprintf("bigmul_%d", w)
+		uf(name, []int{w, w}, w)
+		r := App(name, w, p, q)
+		// multiplication is commutative: ground instance for this application (the syntactic normalisation above
+		// cannot see that two differently written arguments are equal)
+		if !sameT(p, q) {
+			e.solver.Assert(Eq(r, App(name, w, q, p)))
+		}
+		return bigSet(a[0], &bigVal{w, r, neg})
+	})
+	B("Add", func(e *Engine, fr *frame, a []Value) Value {
+		x, y := bigGet(a[1]), bigGet(a[2])
+		if cs, ok := concrete3(x, y); ok {
+			return bigSet(a[0], bigConst(new(big.Int).Add(cs[0], cs[1])))
+		}
+		if x.neg != y.neg {
+			// x + (-y) = x - y
+			return bigSub(e, a[0], x, &bigVal{y.w, y.t, !y.neg})
+		}
+		w := bigW(x, y) + 8
+		res := &bigVal{w, Add(padTo(x.t, w), padTo(y.t, w)), x.neg}
+		if mx, my := metaOf(x).red, metaOf(y).red; mx != "" && mx == my {
+			metaOf(res).sumRed = mx
+		}
+		return bigSet(a[0], res)
+	})
+	B("Sub", func(e *Engine, fr *frame, a []Value) Value {
+		x, y := bigGet(a[1]), bigGet(a[2])
+		if cs, ok := concrete3(x, y); ok {
+			return bigSet(a[0], bigConst(new(big.Int).Sub(cs[0], cs[1])))
+		}
+		return bigSub(e, a[0], x, y)
+	})
+	B("Mod", func(e *Engine, fr *frame, a []Value) Value {
+		x, m := bigGet(a[1]), bigGet(a[2])
+		if cs, ok := concrete3(x, m); ok {
+			if cs[1].Sign() == 0 {
+				e.goPanicStr("division by zero")
+			}
+			return bigSet(a[0], bigConst(new(big.Int).Mod(cs[0], cs[1])))
+		}
+		if x.neg || m.neg {
+			unsupported("big.Mod with negative symbolic operand")
+		}
+		ms := m.t.S()
+		if metaOf(x).red == ms {
+			return bigSet(a[0], &bigVal{x.w, x.t, false})
+		}
+		if metaOf(x).sumRed == ms {
+			w := bigW(x, m)
+			xt, mt := padTo(x.t, w), padTo(m.t, w)
+			res := &bigVal{w, Ite(Ult(xt, mt), xt, Sub(xt, mt)), false}
+			metaOf(res).red = ms
+			return bigSet(a[0], res)
+		}
+		w := bigW(x, m)
+		name := fmt.Sprintf("bigmod_%d", w)
+		uf(name, []int{w, w}, w)
+		mt := padTo(m.t, w)
+		r := App(name, w, padTo(x.t, w), mt)
+		e.solver.Assert(Or(Eq(mt, BV(w, 0)), Ult(r, mt)))
+		res := &bigVal{w, r, false}
+		if m.w < w {
+			res = &bigVal{m.w, Extract(m.w-1, 0, r), false}
+		}
+		metaOf(res).red = ms
+		return bigSet(a[0], res)
+	})
+	B("ProbablyPrime", func(e *Engine, fr *frame, a []Value) Value {
+		x := bigGet(a[0])
+		if c, ok := x.concrete(); ok {
+			return Bool(c.ProbablyPrime(a[1].(Term).Int()))
+		}
+		uf("isprime_"+fmt.Sprint(x.w), []int{x.w}, 0)
+		return App("isprime_"+fmt.Sprint(x.w), 0, x.t)
+	})
+	B("Neg", func(e *Engine, fr *frame, a []Value) Value {
+		x := bigGet(a[1])
+		return bigSet(a[0], &bigVal{x.w, x.t, !x.neg})
+	})
+	B("Abs", func(e *Engine, fr *frame, a []Value) Value {
+		x := bigGet(a[1])
+		return bigSet(a[0], &bigVal{x.w, x.t, false})
+	})
+	B("IsInt64", func(e *Engine, fr *frame, a []Value) Value {
+		x := bigGet(a[0])
+		if x.w <= 63 {
+			return Bool(true)
+		}
+		return Eq(Extract(x.w-1, 63, x.t), BV(x.w-63, 0))
+	})
+}
+
+// bigSub: x - y for non-negative magnitudes with concrete signs; the sign of the result is decided by a
+// fork on x < y when symbolic
+func bigSub(e *Engine, dst Value, x, y *bigVal) Value {
+	if x.neg != y.neg {
+		// x - (-y) = x + y (signs differ): magnitude add, sign of x
+		w := bigW(x, y) + 8
+		return bigSet(dst, &bigVal{w, Add(padTo(x.t, w), padTo(y.t, w)), x.neg})
+	}
+	w := bigW(x, y)
+	xt, yt := padTo(x.t, w), padTo(y.t, w)
+	// range knowledge kept by the engine (from the asserted range facts of Exp/Mod results) decides the
+	// comparison without a 2048-bit solver query: x reduced modulo y means x < y
+	var less bool
+	switch {
+	case metaOf(x).red != "" && metaOf(x).red == y.t.S():
+		less = true
+	case metaOf(y).red != "" && metaOf(y).red == x.t.S():
+		less = false
+	default:
+		less = e.branch(Ult(xt, yt))
+	}
+	if less {
+		res := &bigVal{w, Sub(yt, xt), !x.neg}
+		metaOf(res).nonzero = true // x < y strictly
+		if r := metaOf(y).red; r != "" { // 0 < y - x <= y < m
+			metaOf(res).red = r
+		} else if metaOf(x).red == y.t.S() { // y is the modulus itself: 0 < y - x <= y ... and < y when x > 0
+			// y - x < y only if x > 0; keep no claim
+		}
+		return bigSet(dst, res)
+	}
+	res := &bigVal{w, Sub(xt, yt), x.neg}
+	// difference of a reduced value and something not larger stays reduced
+	if r := metaOf(x).red; r != "" {
+		metaOf(res).red = r
+	}
+	return bigSet(dst, res)
+}
